@@ -160,7 +160,7 @@ def _nldiv(v, params):
 def _nldir(v, params):
     """NLDIR: `$` inside _NO_DIR (the guard keeping wildcards off `.`/`..`) also holds before a final newline, so a
     last segment '.\\n' or '..\\n' is treated like '.'/'..' by wildcards."""
-    if v['kind'] != 'lang':
+    if v['kind'] not in ('lang', 'leak'):
         return False
     name = _name(v)
     if not name:
@@ -169,9 +169,41 @@ def _nldir(v, params):
     if seg not in ('.\n', '..\n'):
         return False
     obs, exp = v['observed'].get('match'), v['expected'].get('match')
+    if v['kind'] == 'leak':
+        # C03 sees the same thing through a negated group: `!(*|.)` accepts '.\n' because the `*` inside refuses it;
+        # only when no *other* segment of the name is special
+        others = name.replace('\\', '/').split('/')[:-1]
+        seq = _ast(v)
+        return '!(' in v['input']['pattern'] and seq is not None and \
+            (not any(x in ('.', '..') for x in others) or _others_written(seq, others))
     if obs is False and exp is True:
         return True
     return '!(' in v['input']['pattern'] and obs is True and exp is False
+
+
+def _others_written(seq, others):
+    """The special segments among `others` stand opposite pattern segments that can match them with written dots."""
+    segs = _segments(seq)
+    if len(segs) != len(others) + 1 or any(nd[0] == 'star' and nd[1] >= 2 for nd in seq):
+        return False
+
+    def has_written(sg, n):
+        # a literal alternative / literal run spelling exactly n
+        def texts(s):
+            outs = ['']
+            for nd in s:
+                if nd[0] == 'lit':
+                    outs = [o + nd[1] for o in outs]
+                elif nd[0] == 'ext' and nd[1] in '@?+*':
+                    alts = []
+                    for a in nd[2]:
+                        alts += texts(a)
+                    outs = [o + a for o in outs for a in alts if a is not None]
+                else:
+                    return [None]
+            return outs
+        return n in [t for t in texts(sg) if t is not None]
+    return all(has_written(sg, n) for sg, n in zip(segs, others) if n in ('.', '..'))
 
 
 def _nullable(seq):
@@ -281,7 +313,17 @@ def _negdotdir(v, params):
     if not any(x in ('.', '..') for x in name.split('/')):
         return False
     seq = _ast(v)
-    return seq is not None and _neg_has_dot_alt(seq)
+    if seq is None or not _neg_has_dot_alt(seq):
+        return False
+    # where pattern and name segments can be aligned one to one (no globstar, same number of segments), some special
+    # segment of the name must stand opposite a pattern segment that holds such a negated group: special segments
+    # matched only by *other* segments of the pattern are not this finding
+    segs = _segments(seq)
+    nsegs = [x for x in name.split('/') if x]
+    if len(segs) == len(nsegs) and not any(nd[0] == 'star' and nd[1] >= 2 for nd in seq) and 'X' not in inp['flags'] \
+            and 'B' not in inp['flags']:
+        return any(_neg_has_dot_alt(sg) for sg, n in zip(segs, nsegs) if n in ('.', '..'))
+    return True
 
 
 def _group_alt_ends_dot(seq):
